@@ -49,6 +49,31 @@ theorem stop_restores_queued_partial {attrs : List Attr} {fs : List FState} {s :
   obtain ⟨f, hfs, hb⟩ := (Reach.inv h).back e he hf
   exact revertAll_restores _ s.fs e.idx f e.pre (List.mem_map.mpr ⟨e, he, rfl⟩) hfs hb
 
+/-- full strength, no guard on the flow: stopping replay sets EVERY still-queued flow to the backup it has carried
+    since it was queued (`bk`) — its pre-replay state if it had no backup then (`fresh_backup_is_pre`), the older
+    backup otherwise.  This is exactly what the code does, F-C53a included: the model predicts the wrong outcome. -/
+theorem stop_restores_backup {attrs : List Attr} {fs : List FState} {s : St} (h : Reach attrs fs s)
+    (_hnot : stopBlocked s = false) :
+    ∀ e ∈ s.queue, ((stopReplay s).fs[e.idx]?).map (·.cur) = some e.bk := by
+  intro e he
+  obtain ⟨f, hfs, hb⟩ := (Reach.inv h).bk e he
+  exact revertAll_restores _ s.fs e.idx f e.bk (List.mem_map.mpr ⟨e, he, rfl⟩) hfs hb
+
+/-- the backup recorded for an entry whose flow had none is that flow's pre-replay state -/
+theorem fresh_backup_is_pre {attrs : List Attr} {fs : List FState} {s : St} (h : Reach attrs fs s) :
+    ∀ e ∈ s.queue, e.fresh = true → e.bk = e.pre :=
+  (Reach.inv h).fresh
+
+/-- hence a queued flow is restored to its pre-replay state exactly when the backup it carries is that state -/
+theorem stop_restores_pre_iff {attrs : List Attr} {fs : List FState} {s : St} (h : Reach attrs fs s)
+    (hnot : stopBlocked s = false) :
+    ∀ e ∈ s.queue, (((stopReplay s).fs[e.idx]?).map (·.cur) = some e.pre ↔ e.bk = e.pre) := by
+  intro e he
+  rw [stop_restores_backup h hnot e he]
+  constructor
+  · intro h'; exact Option.some.inj h'
+  · intro h'; rw [h']
+
 def okAttr : Attr := { live := false, intercepted := false, isHttp := true, hasReq := true, hasContent := true, ws := false }
 def cur0 : Cur := { resp := true, err := false, marked := false, ver := 0 }
 
@@ -58,7 +83,7 @@ theorem stop_restores_queued_counterexample :
     ∃ s, Reach [okAttr] [{ cur := cur0, backup := none }] s ∧ ¬ StopRestoresQueued s := by
   refine ⟨_, ⟨[.edit 0, .start [0]], rfl⟩, ?_⟩
   intro h
-  have := h { ticket := 0, idx := 0, fresh := false, pre := { cur0 with ver := 1 } } (by decide) (by decide)
+  have := h { ticket := 0, idx := 0, fresh := false, pre := { cur0 with ver := 1 }, bk := cur0 } (by decide) (by decide)
   revert this
   decide
 
